@@ -148,6 +148,11 @@ def data_streams(ctx):
             i = sh.find(mark)
             if i > 0:
                 cs += [[i], [i, 1], [i - 1, 1, 1], [3, i - 3]] if i > 3 else [[i]]
+        # the same stream with the client waiting (until the server blocks for input) behind one of the first line ends:
+        # whether more input is already there when a line is handled must not matter (seeded change c05-m10 threw the
+        # pending input away after an over-long line); a cut list that starts with 0 means "wait behind the first segment"
+        ends = [i + 1 for i, c in enumerate(sh) if c == LF][:3]
+        cs += [[0, e] for e in ends if 0 < e < n]
         out.append((body, cs))
     return out
 
@@ -158,11 +163,12 @@ def data_framing(ctx):
     if not b or not ctx.driver:
         return
     streams = data_streams(ctx)
+    waits = [cuts[:1] == [0] for body, cs in streams for cuts in cs]
     cases = [(bytes(body), [c for c in cuts if c > 0]) for body, cs in streams for cuts in cs]
     mouts = vlib.run_batch(ctx.driver, ['dataphase %s %s' % (hexs(st), ','.join(map(str, cu)) if cu else '-') for st, cu in cases])
     pre = ['ehlo', 'mail', 'rcpt_alice']
     lines, scs, metas = [], [], []
-    for (st, cu), mo in zip(cases, mouts):
+    for (st, cu), mo, wait in zip(cases, mouts, waits):
         m = parse_dataphase(mo)
         if m['verdict'] == 'queued':
             dv = 'D;ok'
@@ -181,8 +187,10 @@ def data_framing(ctx):
         # client: lock-step up to DATA, then the stream in the given segments, then the end of the connection
         items = session.lockstep([W.VOCAB[n][0] + b'\r\n' for n in pre] + [b'DATA\r\n'])
         pos = 0
-        for c in cu:
+        for k, c in enumerate(cu):
             items.append(('S', st[pos:pos + c])); pos += c
+            if wait and k == 0:
+                items.append(('W',))
         if pos < len(st):
             items.append(('S', st[pos:]))
         items += [('W',), ('S', b'QUIT\r\n'), ('W',)]
